@@ -143,6 +143,13 @@ pub fn generate(g: &mut Gen, thorough: bool) {
         KpCase { inv: false, rt: false, z: None, t: None, d: Some(2), dim: Some(2), op: "addone".into(), files: vec![Some("\u{1}BROKEN:".into()), Some("5 6\n".into())] },
         KpCase { inv: true, rt: false, z: None, t: None, d: Some(3), dim: None, op: "utm zone=32".into(), files: vec![Some("500000 6000000\n".into()), Some("\u{1}BROKEN:# comment\n\n600000 6100000\n".into())] },
     ];
+    // input that fills a whole number of internal batches (25000 lines each), and one line more or less
+    for (n, op, rt) in [(25000usize, "addone", false), (50000, "addone", false), (24999, "addone", false), (25001, "addone", false), (25000, "utm zone=32", true)] {
+        let text: String = (0..n).map(|i| format!("{} {}\n", 5 + i % 7, 50 + i % 11)).collect();
+        let c = KpCase { inv: false, rt, z: None, t: None, d: Some(3), dim: Some(2), op: op.into(), files: vec![Some(text)] };
+        g.push(c.line("KP"), "whole-batches", true);
+        g.push(c.line("S_C20"), "oracle-whole-batches", true);
+    }
     for c in unreadable {
         g.push(c.line("KP"), "unreadable", true);
         g.push(c.line("S_C20"), "oracle-unreadable", true);
